@@ -12,7 +12,70 @@ BASE_NOTE = ("Trusted: Kani's MIR->GOTO translation, CBMC symex/bit-blasting, Ca
              "a harness that hits its time or memory cap is reported INCONCLUSIVE and not counted as discharged. ")
 
 # property -> (claimed?, level text, extra note, design ref)
+DB_NOTE = ("pocket-db harnesses run pocket-db's real code over ENVIRONMENT MODELS of heed/LMDB and mmap-append (model/, validated natively "
+           "against all 35 pocket-db tests by ./setup) and std::fs / clock / io::Error-message stubs; built with the guarded hook "
+           "--cfg mikedilger_pocket_verif (256-byte EVENT_MAP_CHUNK). Counterexamples of these harnesses are reported on the solver's "
+           "verdict against the model (Kani playback cannot replay them natively); the two defects found this way were confirmed by hand. ")
+JSON_NOTE = ("Arbitrary input bytes are decided on kernels (integer readers, unescaper, hex, UTF-8); member-level JSON harnesses run on constant "
+             "texts (validated against Python's json at generation time) with arbitrary prior output-buffer contents: one arbitrary byte in a "
+             "300-byte text makes the whole parse symbolic for CBMC and does not finish (DESIGN.md 8.3). ")
+
+# property -> (level text, extra note, design ref)
 CLAIMS = {
+    "C01": ("read_u64/read_kind decided on every digit string up to 21/11 digits (exact value or rejected, never wrapped); Event::from_json on "
+            "constant texts covering seven member orders (each member last once; content before/after tags), whitespace in every gap, unknown "
+            "members of every JSON value shape, deferred content and every escape spelling: accepted, consumed = offset past the brace, every "
+            "accessor equals the denoted part, for every prior content of the output buffer.", JSON_NOTE, "DESIGN.md 8.3 C01"),
+    "C02": ("Same text parsed into a zeroed and into an arbitrary buffer is byte-identical; compact vs. whitespace/unknown-member/deferred layout vs. "
+            "Event::from_parts byte-identical; escaped vs. literal spelling byte-identical; as_json equals a reference NIP-01 writer for arbitrary "
+            "ASCII tag/content bytes and parses back to the identical image.", JSON_NOTE, "DESIGN.md 8.3 C02"),
+    "C03": ("Kani's memory-safety, overflow, bounds and unwinding checks on every parser entry: UTF-8 step/encode on their whole input space, the "
+            "unescaper on every input up to 3 bytes and every output length, \\uXXXX with 4 arbitrary bytes, hex readers on every 64-byte input and "
+            "every length 0..=130, Addr on short arbitrary inputs and a template; Tags/Filter/Event::from_json on every prefix length and on output "
+            "lengths around the needed size (instance families, seeded in quick), consumed <= length, accessors total.", JSON_NOTE, "DESIGN.md 8.3 C03"),
+    "C04": ("One EventStore::store_event from an arbitrary valid file state (arbitrary earlier bytes, arbitrary event image; end-marker residues and "
+            "fits/exact/grows instances): 8-aligned offset at or after the old end, end = offset+len within the file, byte-identical read-back, earlier "
+            "bytes unchanged; histories of two/three arbitrary events across file growth and remap; creation.", DB_NOTE +
+            "Not claimed: id lookup across Store-level histories.", "DESIGN.md 8.3 C04"),
+    "C05": ("Index keys: byte-lexicographic order == newest first with id tie-break for ci/ac/akc keys, (author,kind) prefix separation; scan bounds of "
+            "all six *_iter functions for an arbitrary since/until window; the scraping gate of find_events on an empty store with arbitrary "
+            "since/until/limit/clock/allowances never panics and refuses exactly when the allowances do not cover the filter.", DB_NOTE +
+            "Not claimed: query plans over non-empty stores, limit selection, redaction.", "DESIGN.md 8.3 C05"),
+    "C06": ("Filter::event_matches equals a reference NIP-01 predicate on byte images with arbitrary contents: 0..2 ids/authors/kinds in six count "
+            "shapes with arbitrary times, and tag shapes with prefix/extension values, empty values, multi-letter names, repeated names, name-only and "
+            "empty tags, event without tags; never Err.", "Operand images come from a reference encoder written from the layout comments "
+            "(C19 decides that from_parts writes the same images).", "DESIGN.md 8.3 C06"),
+    "C07": ("Filter::from_json on constant texts (compact; reordered with whitespace and unknown members): accessors equal the denoted values; "
+            "limit at 2^32-1, 2^32, 2^64-1 saturates; eight tag-letter pairs around the duplicate bitmap; as_json equals a reference writer for "
+            "arbitrary ASCII tag values and round-trips on escape-needing instances.", JSON_NOTE, "DESIGN.md 8.3 C07"),
+    "C09": ("Kind classification on all 65,536 kinds (mutually exclusive, NIP-01 ranges); Kind::try_from_string_bytes on every digit string; "
+            "akc index key order and (author,kind) separation.", DB_NOTE + "Not claimed: Store-level replacement histories (one store with an "
+            "arbitrary created_at against a holder ran out of 20 GB), d-value separation (known by reading, DESIGN.md 8.5).", "DESIGN.md 8.3 C09"),
+    "C10": ("Store level: with a victim of another author in the store, a deletion request naming it by id (arbitrary times) is refused as an invalid "
+            "delete, the victim stays retrievable byte-identical and unmarked; the address an `a` tag names determines the author compared.",
+            DB_NOTE, "DESIGN.md 8.3 C10"),
+    "C11": ("Lmdb level: the recorded deletion time of an address after two markings with arbitrary times in either order is the maximum; address and "
+            "id markers dump back exactly (what rebuild copies).", DB_NOTE + "Not claimed: Store-level refusal of covered events "
+            "(ran out of 20 GB), rebuild/reopen continuations.", "DESIGN.md 8.3 C11"),
+    "C12": ("Store level: a store that fails as duplicate, and one that fails as replaced after the pre-removal scan, leave every committed table of "
+            "the environment model and the commit count unchanged.", DB_NOTE, "DESIGN.md 8.3 C12"),
+    "C13": ("EventStore level with the crash point as a symbolic variable: a second store_event killed at any of its persistent effects leaves the end "
+            "marker at the old end, the aligned old end or the complete new end, within the file, earlier events intact, and reopens; EventStore::new "
+            "killed at any effect of creation reopens as an empty store with end marker 8.", DB_NOTE +
+            "Assumes a store into the shared mapping survives a process kill and effects reach the file in program order. Not claimed: Store-level "
+            "append-before-commit ordering, remove/vanish, OS page reordering.", "DESIGN.md 8.3 C13"),
+    "C15": ("EventStore level: a reference taken before a store that enlarges the file keeps its bytes; its address is unchanged under a non-moving "
+            "resize and changes under mremap(MAYMOVE) - the latter is a listed known finding.", DB_NOTE, "DESIGN.md 8.3 C15, 8.5"),
+    "C17": ("Store/Lmdb level: after indexing an event with repeated, value-less, multi-letter and empty tags the id/time/author/author-kind counts "
+            "are 1 and the tag-index counts equal the distinct indexable tags; after remove_event all counts are 0.", DB_NOTE +
+            "Not claimed: access-path agreement over histories.", "DESIGN.md 8.3 C17"),
+    "C18": ("Store level: an event whose kind is arbitrary in 20000..=30010 is stored, retrievable iff not ephemeral, unmarked; remove_event removes "
+            "exactly its target among two events, leaves no marker, and is a no-op for an absent id.", DB_NOTE + "Not claimed: vanish.",
+            "DESIGN.md 8.3 C18"),
+    "C19": ("Tags/Event/Filter::from_parts with arbitrary contents: image equals a reference encoder's, accessors return the parts in order (absent "
+            "options as their defaults), BufferTooSmall exactly below the needed size, never a panic.",
+            "Not claimed: the 65,536-boundaries (the array-theory query ran out of 16 GB), sign_new (FFI), the JSON paths (C01/C07).",
+            "DESIGN.md 8.3 C19"),
     "C20": (
         "Solver-decided over the real Hll8 code: merge commutative/associative/idempotent and equal to register-wise max on all "
         "256-register states; add_element equals max with a bit-level reference rho for every element, offset and prior state, "
@@ -20,12 +83,16 @@ CLAIMS = {
         "32-byte value; estimate_count panic-free, finite and non-zero for every single-register extreme 0..=255 and exactly 0 on the "
         "empty sketch. Not claimed: statistical accuracy, estimate over arbitrary multi-register states, Hll8-sized hex import.",
         "Additional stub: f64::powi modelled exactly for base 2.0 (power of two), arbitrary otherwise.",
-        "DESIGN.md section 4 C20"),
+        "DESIGN.md section 4 C20, 8.3"),
 }
 
 NOT_APPLICABLE = {
+    "C08": "Verification = canonical text -> SHA-256 -> libsecp256k1 (C code behind FFI): neither the hash of a symbolic-length string nor the "
+           "signature check can be encoded; the canonical-text kernels that remain are decided under C02/C03 and would not settle 'accepts exactly'.",
     "C14": "Concurrency: Kani/CBMC do not model Rust threads; the isolation relied on is LMDB's writer lock/MVCC (C code behind FFI) "
            "and locks inside mmap-append. Under any sequential environment model the property is trivially true of the model, not of pocket (DESIGN.md section 5).",
+    "C16": "Rebuild renames directories, checks file ownership and re-indexes through two LMDB environments - beyond the environment model and the "
+           "memory budget; the marker-dump round trip that remains is reported under C11; reopen of the event file is part of C04/C13.",
 }
 
 PENDING = "check not built yet in this revision of /verif (work in progress; see DESIGN.md section 4 for the plan)"
@@ -54,11 +121,11 @@ def main():
         "version": 1,
         "setup_cmd": "./setup",
         "hooks": {
-            "guard": "none (cfg(kani) harness modules are appended to a scratch copy of /repo; /repo itself carries no hooks)",
-            "enable": "./check copies /repo's working tree to $VERIF_SCRATCH (default /var/tmp/pocket-verif), appends `#[cfg(kani)] #[path=..] mod verif_*;` lines to the copied sources and runs cargo kani there",
+            "guard": "cfg(mikedilger_pocket_verif) - selects a 256-byte EVENT_MAP_CHUNK in pocket-db/src/event_store.rs (declared in pocket-db/Cargo.toml [lints.rust] check-cfg)",
+            "enable": "./check copies /repo's working tree to $VERIF_SCRATCH (default /var/tmp/pocket-verif), appends `#[cfg(kani)] #[path=..] mod verif_*;` lines to the copied sources and runs cargo kani there; pocket-db harnesses are built with RUSTFLAGS=--cfg mikedilger_pocket_verif",
             "baseline_off_cmd": "cd /repo && cargo test --workspace --no-fail-fast --offline",
-            "source_commits": [],
-            "add_only": True,
+            "source_commits": ["637403a"],
+            "add_only": False,
         },
         "engines": [{
             "name": "kani-cbmc", "path": "check",
